@@ -33,6 +33,9 @@ func NewEnc() *Enc {
 	e.raw("str_concat", "(declare-fun str_concat (Str Str) Str)")
 	e.raw("typeof", "(declare-fun typeof (Int) Int)")
 	e.strLit("")
+	// ix(off, i) = off + i: element addresses keep this syntactic shape so that quantifier patterns match them
+	e.raw("ix", "(declare-fun ix (Int Int) Int)")
+	e.axioms = append(e.axioms, "(forall ((o!x Int) (i!x Int)) (! (= (ix o!x i!x) (+ o!x i!x)) :pattern ((ix o!x i!x))))")
 	e.axioms = append(e.axioms,
 		"(forall ((s Str)) (! (>= (str_len s) 0) :pattern ((str_len s))))",
 		"(forall ((s Str)) (! (= (= (str_len s) 0) (= s "+e.strLit("")+")) :pattern ((str_len s))))",
@@ -68,7 +71,7 @@ func q(s string) string {
 var smtReserved = map[string]bool{"store": true, "select": true, "and": true, "or": true, "not": true, "ite": true, "let": true, "forall": true, "exists": true,
 	"true": true, "false": true, "distinct": true, "div": true, "mod": true, "abs": true, "assert": true, "as": true, "par": true, "Int": true, "Bool": true, "Real": true,
 	"Array": true, "xor": true, "to_real": true, "to_int": true, "is_int": true, "match": true, "push": true, "pop": true, "exit": true, "Str": true, "Slice": true, "typeof": true,
-	"str_len": true, "str_concat": true, "mk_slice": true, "sl_base": true, "sl_off": true, "sl_len": true, "sl_cap": true, "const": true, "lambda": true, "set": true, "map": true, "seq": true, "re": true, "bag": true, "tuple": true, "table": true, "member": true, "subset": true, "union": true, "inter": true, "insert": true, "singleton": true, "complement": true, "card": true, "choose": true, "filter": true, "fold": true, "iand": true, "int2bv": true, "bv2nat": true, "pow2": true, "exp": true, "sin": true, "cos": true, "tan": true, "pi": true, "sqrt": true, "divisible": true, "eqrange": true, "is": true, "update": true, "witness": true, "Float16": true, "Float32": true, "Float64": true, "RoundingMode": true, "String": true, "RegLan": true, "fp": true, "rel": true, "join": true, "product": true, "transpose": true, "tclosure": true, "iden": true}
+	"str_len": true, "str_concat": true, "ix": true, "mk_slice": true, "sl_base": true, "sl_off": true, "sl_len": true, "sl_cap": true, "const": true, "lambda": true, "set": true, "map": true, "seq": true, "re": true, "bag": true, "tuple": true, "table": true, "member": true, "subset": true, "union": true, "inter": true, "insert": true, "singleton": true, "complement": true, "card": true, "choose": true, "filter": true, "fold": true, "iand": true, "int2bv": true, "bv2nat": true, "pow2": true, "exp": true, "sin": true, "cos": true, "tan": true, "pi": true, "sqrt": true, "divisible": true, "eqrange": true, "is": true, "update": true, "witness": true, "Float16": true, "Float32": true, "Float64": true, "RoundingMode": true, "String": true, "RegLan": true, "fp": true, "rel": true, "join": true, "product": true, "transpose": true, "tclosure": true, "iden": true}
 
 func (e *Enc) declConst(name, sort string) string {
 	if smtReserved[name] {
@@ -149,7 +152,26 @@ func (e *Enc) typeTag(t types.Type) string {
 
 func pkgQual(p *types.Package) string { return p.Name() }
 
-func typeKey(t types.Type) string { return types.TypeString(t, pkgQual) }
+// typeKey: printable identity of a type with aliases resolved at every level (types.Alert == alert.Alert).
+func typeKey(t types.Type) string {
+	t = types.Unalias(t)
+	switch u := t.(type) {
+	case *types.Pointer:
+		return "*" + typeKey(u.Elem())
+	case *types.Slice:
+		return "[]" + typeKey(u.Elem())
+	case *types.Array:
+		return fmt.Sprintf("[%d]%s", u.Len(), typeKey(u.Elem()))
+	case *types.Map:
+		return "map[" + typeKey(u.Key()) + "]" + typeKey(u.Elem())
+	case *types.Chan:
+		return "chan " + typeKey(u.Elem())
+	}
+	if n, ok := t.(*types.Named); ok && n.TypeArgs().Len() > 0 {
+		return types.TypeString(n.Origin(), pkgQual)
+	}
+	return types.TypeString(t, pkgQual)
+}
 
 func isNamed(t types.Type, pkg, name string) bool {
 	t = types.Unalias(t)
@@ -213,7 +235,8 @@ func (e *Enc) sortOf(t types.Type) string {
 		if u.NumFields() == 0 {
 			return "Bool"
 		}
-		return e.structSort(t, u)
+		ct := canon(t)
+		return e.structSort(ct, ct.Underlying().(*types.Struct))
 	case *types.TypeParam:
 		return "Int"
 	case *types.Tuple:
@@ -225,8 +248,22 @@ func (e *Enc) sortOf(t types.Type) string {
 	return "Int"
 }
 
+// canon maps every instance of a generic named type to the generic type itself: generic code is verified once
+// over opaque type parameters, and callers that use an instantiation share its heap arrays and datatypes.
+func canon(t types.Type) types.Type {
+	t = types.Unalias(t)
+	if n, ok := t.(*types.Named); ok && n.TypeArgs().Len() > 0 {
+		return n.Origin()
+	}
+	return t
+}
+
 func (e *Enc) structName(t types.Type) string {
+	t = canon(t)
 	k := typeKey(t)
+	if n, ok := t.(*types.Named); ok && n.TypeParams().Len() > 0 {
+		return k
+	}
 	if old, ok := e.typeNames[k]; ok {
 		if !types.Identical(old, t) {
 			// disambiguate by full path
@@ -255,13 +292,14 @@ func (e *Enc) structSort(t types.Type, u *types.Struct) string {
 
 func (e *Enc) ctor(t types.Type) string { return q("mk$" + e.structName(t)) }
 func (e *Enc) accessor(t types.Type, i int) string {
+	t = canon(t)
 	u := t.Underlying().(*types.Struct)
 	return q("get$" + e.structName(t) + "$" + u.Field(i).Name())
 }
 
 // zero value term of a Go type
 func (e *Enc) zero(t types.Type) string {
-	t = types.Unalias(t)
+	t = canon(t)
 	s := e.sortOf(t)
 	switch s {
 	case "Int":
